@@ -1,7 +1,10 @@
 """bin/check configuration of property C11 (see bin/props.py)."""
 
 PROP = {'lean': 'MpsProps.C11',
- 'theorems': ['Mps.C11.frost_nonce_input_injective',
+ 'theorems': ['Mps.C11.aux_independent_of_read_chunking',
+              'Mps.C11.bip340_nonce_independent_of_read_chunking',
+              'Mps.C11.single_read_loses_randomness',
+              'Mps.C11.frost_nonce_input_injective',
               'Mps.C11.frost_ssid_injective',
               'Mps.C11.frost_nonce_context_separation',
               'Mps.C11.frost_nonces_differ',
